@@ -12,7 +12,7 @@ from harness.sched import run_forced
 IMPORTS = ["C11.Model_C11"]
 
 CODE = {"w_loop": 1, "w_fetch": 2, "w_put": 3, "w_check": 4, "w_send": 5, "dead": 6,
-        "c_get": 10, "c_post": 11, "c_alive": 12, "c_done": 13, "stop": 0}
+        "c_get": 10, "c_post": 11, "c_alive": 12, "c_done": 13, "c_empty": 14, "stop": 0}
 
 
 def schema_with_ops(n_ops: int) -> dict:
@@ -338,3 +338,29 @@ def stream_wf(evs, interrupted: bool) -> str | None:
     if not saw_interrupt and phases_seen != PHASE_ORDER:
         return f"not every phase was opened: {phases_seen}"
     return None
+
+
+def race_search(chk: core.Check, n: int, judge) -> dict:
+    """Targeted search around the consumer's exit condition: the consumer is stopped at each sub-step of
+    `all(not alive) and queue.empty()` (incl. between an emptiness test and a liveness test, harness-side instrumentation)
+    while the workers put their last events and die.  `judge(sc, result) -> str | None` names a property failure."""
+    rng = chk.rng
+    found = 0
+    for k in range(n):
+        workers = rng.choice([1, 1, 2])
+        n_ops = workers
+        kinds = [rng.choice(["fail", "ok", "err"]) for _ in range(n_ops)]
+        head = []
+        for i in range(workers):
+            head += [f"W{i}"] * rng.randint(3, 7)
+        rng.shuffle(head)
+        k_c = 2 + (k % 9)
+        sched = head + ["C"] * k_c + [f"W{i}" for i in range(workers)] * 25 + ["C"] * 25
+        sc = {"kinds": kinds, "workers": workers, "cof": False, "maxf": None, "max_examples": 2, "schedule": sched, "arm_islive": True}
+        r = run_forced(schema_with_ops(n_ops), make_responder(kinds), sched, workers=workers, max_examples=2, fault=make_fault(kinds), arm_islive=True)
+        chk.seen({"race": sc}, True)
+        verdict = judge(sc, r)
+        if verdict is not None:
+            found += 1
+            chk.fail(verdict, sc)
+    return {"runs": n, "failures": found}
